@@ -200,6 +200,15 @@ def r11_4(ctx):
                              ast.unparse(v.args[1]) == '1' for v in temps)
     ctx.ob('R11.4', 'Supervisor.body:burst-budget', ok, sb, temps[0] if temps else None,
            'restart_state(10 * pool._processes, 1)')
+    # one burst limiter for the whole start-up phase: a limiter rebuilt per tick forgets what it counted
+    tn = [dn for (dn, t, v) in q.assigns(sb, 'self.pool.restart_state') if isinstance(v, ast.Call)]
+    loops_ = [n for n in sb.cfg.where(lambda n: n.kind in ('for', 'loop'))]
+    in_loop = [dn for dn in tn if any(q.inside(sb, dn, lp.stmt.body) for lp in loops_)]
+    ctx.ob('R11.4', 'Supervisor.body:one-burst-limiter-for-all-ticks', bool(tn) and not in_loop, sb,
+           in_loop[0] if in_loop else (tn[0] if tn else None),
+           'the burst limiter is installed once, before the ticks' if not in_loop else
+           'the burst limiter is re-created inside the tick loop: its count and window start afresh every 0.1 s and '
+           'the start-up limit of ten restarts per slot per second is never reached')
     fors = [n for n in sb.cfg.where(lambda n: n.kind == 'for')]
     ok = bool(fors) and ast.unparse(fors[0].stmt.iter) == 'range(10)' and \
         bool([n for (n, c) in q.calls(sb, 'self.pool._maintain_pool') if q.inside(sb, n, fors[0].stmt.body)])
@@ -223,6 +232,8 @@ def run(ctx):
 _P = 'billiard/pool.py'
 _C = 'billiard/common.py'
 MUTANTS = [
+    ('burst-limiter-rebuilt-every-tick', _P, "            pool.restart_state = restart_state(10 * pool._processes, 1)\n            for _ in range(10):\n                if self._state == RUN and pool._state == RUN:\n",
+     "            for _ in range(10):\n                if self._state == RUN and pool._state == RUN:\n                    pool.restart_state = restart_state(10 * pool._processes, 1)\n", 'R11.4'),
     ('burst-limiter-installed-at-once', _P, "        debug('worker handler starting')\n\n        time.sleep(0.8)\n\n        pool = self.pool\n",
      "        debug('worker handler starting')\n\n        pool = self.pool\n", 'R11.3'),
     ('grace-sleep-after-the-swap', _P, "        time.sleep(0.8)\n\n        pool = self.pool\n\n        try:\n            # do a burst at startup to verify that we can start\n            # our pool processes, and in that time we lower\n            # the max restart frequency.\n            prev_state = pool.restart_state\n            pool.restart_state = restart_state(10 * pool._processes, 1)\n",
